@@ -140,6 +140,7 @@ func ParseTimeParamsV2(r *http.Request, unit time.Duration) (ValuesParams, error
 			return res, err
 		}
 		dec := schema.NewDecoder()
+		dec.IgnoreUnknownKeys(true)
 		err = dec.Decode(&res.Raw, r.Form)
 		if err != nil {
 			return res, err
